@@ -374,3 +374,109 @@ package sqlittle
 //@   implements functype db.RecordCB
 //@   free-requires cb != nil && CIS_OK(ci) && !viaidx && !vianr
 //@   ensures [nostop] !done
+
+// ---------------------------------------------------------------------------------------
+// Row.Scan (C18). A row holds the five storable kinds. Conversions go through strconv / time, whose
+// results are named by uninterpreted functions (parse_int, parse_float, ...): "numeric text strictly
+// parsed" means: exactly strconv.ParseInt, else exactly strconv.ParseFloat.
+//@ macro ROWOK(r) = (forall qv int :: 0 <= qv && qv < len(r) ==> storable(r[qv]))
+
+//@ smt conv
+//@ (declare-fun parse_int_ok (Str) Bool)
+//@ (declare-fun parse_int (Str) (_ BitVec 64))
+//@ (declare-fun parse_float_ok (Str) Bool)
+//@ (declare-fun parse_float (Str) (_ FloatingPoint 11 53))
+//@ (declare-fun fmt_int ((_ BitVec 64)) Str)
+//@ (declare-fun fmt_float ((_ FloatingPoint 11 53)) Str)
+
+//@ extern strconv.ParseInt
+//@   pure
+//@   ensures base == 10 && bitSize == 64 ==> (err == nil <==> parse_int_ok(s)) && (err == nil ==> r0 == parse_int(s))
+
+//@ extern strconv.ParseFloat
+//@   pure
+//@   ensures bitSize == 64 ==> (err == nil <==> parse_float_ok(s)) && (err == nil ==> r0 == parse_float(s))
+
+//@ extern strconv.FormatInt
+//@   pure
+//@   ensures base == 10 ==> result == fmt_int(i)
+
+//@ extern strconv.FormatFloat
+//@   pure
+//@   ensures result == fmt_float(f)
+
+//@ extern time.Parse
+//@   pure
+//@ extern time.Unix
+//@   pure
+
+// strict numeric text: an integer literal is taken exactly; otherwise a float literal, truncated
+//@ func sqlittle.stringToInt64
+//@   props C18
+//@   pure
+//@   ensures [int] parse_int_ok(s) ==> r1 == nil && r0 == parse_int(s)
+//@   ensures [float] !parse_int_ok(s) ==> (r1 == nil <==> parse_float_ok(s))
+//@   ensures [bad] !parse_int_ok(s) && !parse_float_ok(s) ==> r1 != nil
+
+//@ func (sqlittle.Row).scanBytes
+//@   props C18 C05
+//@   modifies M:bv8 alloc
+//@   requires ROWOK(r) && 0 <= i
+//@   ensures [missing] len(r) <= i ==> result == nil
+//@   ensures [null] 0 <= i && i < len(r) && isNilVal(r[i]) ==> result == nil
+//@   ensures [independent] result == nil || fresh(result)
+//@   ensures [blob] 0 <= i && i < len(r) && isBytes(r[i]) ==> len(result) == len(asBytes(r[i]))
+
+//@ func (sqlittle.Row).scanString
+//@   props C18 C05
+//@   pure
+//@   requires ROWOK(r) && 0 <= i
+//@   ensures [missing] len(r) <= i ==> len(result) == 0
+//@   ensures [null] 0 <= i && i < len(r) && isNilVal(r[i]) ==> len(result) == 0
+//@   ensures [int] 0 <= i && i < len(r) && isInt64(r[i]) ==> result == fmt_int(asInt64(r[i]))
+//@   ensures [text] 0 <= i && i < len(r) && isString(r[i]) ==> result == asString(r[i])
+
+//@ func (sqlittle.Row).scanInt64
+//@   props C18 C05
+//@   pure
+//@   requires ROWOK(r) && 0 <= i
+//@   ensures [missing] len(r) <= i ==> r0 == 0 && r1 == nil
+//@   ensures [null] 0 <= i && i < len(r) && isNilVal(r[i]) ==> r0 == 0 && r1 == nil
+//@   ensures [int] 0 <= i && i < len(r) && isInt64(r[i]) ==> r0 == asInt64(r[i]) && r1 == nil
+//@   ensures [text] 0 <= i && i < len(r) && isString(r[i]) && parse_int_ok(asString(r[i])) ==> r0 == parse_int(asString(r[i])) && r1 == nil
+//@   ensures [badtext] 0 <= i && i < len(r) && isString(r[i]) && !parse_int_ok(asString(r[i])) && !parse_float_ok(asString(r[i])) ==> r1 != nil
+
+//@ func (sqlittle.Row).scanFloat64
+//@   props C18 C05
+//@   pure
+//@   requires ROWOK(r) && 0 <= i
+//@   ensures [missing] len(r) <= i ==> r1 == nil
+//@   ensures [float] 0 <= i && i < len(r) && isFloat64(r[i]) ==> r0 == asFloat64(r[i]) && r1 == nil
+//@   ensures [badtext] 0 <= i && i < len(r) && isString(r[i]) && !parse_float_ok(asString(r[i])) ==> r1 != nil
+
+//@ func (sqlittle.Row).scanTime
+//@   props C18 C05
+//@   pure
+//@   requires ROWOK(r) && 0 <= i
+//@   ensures [missing] len(r) <= i ==> r1 == nil
+//@   ensures [blob] 0 <= i && i < len(r) && isBytes(r[i]) ==> r1 != nil
+
+// Scan: for every destination k: nil destinations are skipped, unsupported ones are an error; the row
+// itself is not written (frame), and byte-slice destinations receive fresh memory.
+//@ func (sqlittle.Row).Scan
+//@   props C18 C05
+//@   modifies box alloc M:bv8 time.Time.wall time.Time.ext time.Time.loc
+//@   requires ROWOK(r)
+//@   ensures [independent] r0 == nil ==> (forall qd int :: 0 <= qd && qd < len(args) && hasType(args[qd], "*[]uint8") ==> load(deref(args[qd], "*[]uint8")) == nil || fresh(load(deref(args[qd], "*[]uint8"))))
+//@   requires [dests] forall qd int :: 0 <= qd && qd < len(args) ==> (hasType(args[qd], "*string") ==> deref(args[qd], "*string") != nil) && (hasType(args[qd], "*[]uint8") ==> deref(args[qd], "*[]uint8") != nil) && (hasType(args[qd], "*int64") ==> deref(args[qd], "*int64") != nil) && (hasType(args[qd], "*int32") ==> deref(args[qd], "*int32") != nil) && (hasType(args[qd], "*int") ==> deref(args[qd], "*int") != nil) && (hasType(args[qd], "*bool") ==> deref(args[qd], "*bool") != nil) && (hasType(args[qd], "*float64") ==> deref(args[qd], "*float64") != nil) && (hasType(args[qd], "*time.Time") ==> deref(args[qd], "*time.Time") != nil)
+//@   loop 1 invariant 0 <= $i && $i <= len(args)
+//@   loop 1 invariant forall qd int :: 0 <= qd && qd < $i && hasType(args[qd], "*[]uint8") ==> load(deref(args[qd], "*[]uint8")) == nil || fresh(load(deref(args[qd], "*[]uint8")))
+//@   loop 1 decreases len(args) - $i
+
+//@ func (sqlittle.Row).ScanStrings
+//@   props C18 C05
+//@   modifies alloc M:Str
+//@   requires ROWOK(r)
+//@   ensures len(result) == len(r)
+//@   loop 1 invariant 0 <= $i && $i <= len(s) && len(s) == len(r) && fresh(s)
+//@   loop 1 decreases len(s) - $i
